@@ -491,6 +491,13 @@ where
     E: nom::error::ParseError<&'a [u8]>,
     F: Fn(&'a [u8]) -> nom::IResult<&'a [u8], T, E>,
 {
+    // the count comes from untrusted input: make sure the data is there before reserving space
+    if u64::from(num_items) * std::mem::size_of::<T>() as u64 > input.len() as u64 {
+        return Err(nom::Err::Error(E::from_error_kind(
+            input,
+            nom::error::ErrorKind::Eof,
+        )));
+    }
     items.reserve_exact(num_items as usize);
     for _ in 0..num_items {
         let (rest, data) = parser(input)?;
